@@ -17,6 +17,7 @@ pub mod c14;
 pub mod c15;
 pub mod c16;
 pub mod c18;
+pub mod c20;
 
 pub fn all() -> Vec<&'static dyn Property> {
     vec![
@@ -37,5 +38,6 @@ pub fn all() -> Vec<&'static dyn Property> {
         &c15::C15,
         &c16::C16,
         &c18::C18,
+        &c20::C20,
     ]
 }
